@@ -372,6 +372,39 @@ fn fixed_numbers_build() -> Vec<String> {
     .iter()
     .map(|s| s.to_string())
     .collect();
+    // doubles that a binary32 holds exactly, written out in full (negative powers of two, 1 + 2^-k,
+    // widened binary32 values): the digits are those of the double, not of the single
+    for k in 1..=44 {
+        let trim = |x: f64| {
+            let t = format!("{:.80}", x);
+            t.trim_end_matches('0').trim_end_matches('.').to_string()
+        };
+        v.push(trim(2f64.powi(-k)));
+        if k <= 23 {
+            v.push(trim(1.0 + 2f64.powi(-k)));
+            v.push(trim(-(3.0 + 2f64.powi(-k))));
+        }
+        v.push(format!("{:e}", 2f64.powi(-k)));
+    }
+    for x in [1.0f32 / 3.0, 0.1, 0.2, 0.7, 1.1, 16777217.0, 3.4028235e38, 1.1754944e-38, 1e-45, 6.1e-5, 0.3] {
+        v.push(format!("{}", x as f64));
+        v.push(format!("{:e}", x as f64));
+        v.push(format!("{}", -(x as f64)));
+    }
+    // plain decimals whose fraction starts with 0..48 zeros, with 1..15 significant digits after them, and
+    // zeros written with 1..48 fraction digits
+    for z in 0..=48usize {
+        for d in ["1", "5", "25", "999", "123456789012345", "100000000000001"] {
+            if z % 3 == 0 || d.len() < 3 {
+                v.push(format!("0.{}{}", "0".repeat(z), d));
+            }
+        }
+        v.push(format!("-0.{}15", "0".repeat(z)));
+        v.push(format!("0.{}", "0".repeat(z + 1)));
+        v.push(format!("-0.{}", "0".repeat(z + 1)));
+        v.push(format!("7.{}", "0".repeat(z + 1)));
+        v.push(format!("12.{}3", "0".repeat(z)));
+    }
     // 1..40 fraction digits, all nines and a ramp
     for n in 1..=40 {
         v.push(format!("0.{}", "9".repeat(n)));
@@ -485,6 +518,41 @@ fn gen_spelling(r: &mut Rng) -> String {
             s
         }
         7 => fixed_numbers()[r.below(fixed_numbers().len())].clone(),
+        8 => {
+            // a random binary32 value, widened: spelled with the shortest digits of the double, or in full
+            let x = loop {
+                let x = f32::from_bits(r.next() as u32);
+                if x.is_finite() {
+                    break x as f64;
+                }
+            };
+            match r.below(3) {
+                0 => format!("{}", x),
+                1 => format!("{:e}", x),
+                _ if x.abs() > 1e-30 && x.abs() < 1e30 => {
+                    let t = format!("{:.90}", x);
+                    if t.contains('.') { t.trim_end_matches('0').trim_end_matches('.').to_string() } else { t }
+                }
+                _ => o_ryu(x),
+            }
+        }
+        9 => {
+            // a plain decimal with many zeros after the point
+            let mut s = String::new();
+            if r.chance(1, 4) {
+                s.push('-');
+            }
+            s.push_str(*r.pick(&["0", "0", "1", "12"]));
+            s.push('.');
+            let z = r.below(50);
+            s.push_str(&"0".repeat(z));
+            let k = r.below(16);
+            s.push_str(&digits(r, k));
+            if s.ends_with('.') {
+                s.push('0');
+            }
+            s
+        }
         _ => {
             let mut s = crate::canon::gen_decimal(r);
             if NumberBuf::new(s.as_bytes().to_vec().into()).is_err() {
